@@ -169,6 +169,25 @@ func (p *Program) Verify(fn *ssa.Function, fc *FuncContract, mode Mode, primary,
 			}
 			c.assume(s)
 		}
+		for _, fz := range fc.Frozen {
+			func() {
+				defer func() {
+					if r := recover(); r != nil {
+						if ee, ok := r.(elabErr); ok {
+							e.errs = append(e.errs, fmt.Sprintf("frozen %s: %v", exprString(fz), ee))
+							return
+						}
+						panic(r)
+					}
+				}()
+				loc, t, ok := e.baseEnv.addr(fz)
+				if !ok {
+					e.errs = append(e.errs, fmt.Sprintf("frozen %s: not addressable", exprString(fz)))
+					return
+				}
+				e.frozen = append(e.frozen, frozenLoc{loc, t})
+			}()
+		}
 		// entry-time unfolds may mention named results: at entry they hold their zero values
 		uenv := e.baseEnv.child()
 		uenv.old = e.baseEnv
@@ -272,6 +291,16 @@ func (e *Encoder) resolveLocal(name string, blk *ssa.BasicBlock, st *State) (Val
 			switch in := b.Instrs[i].(type) {
 			case *ssa.DebugRef:
 				if id, ok := in.Expr.(interface{ String() string }); ok && id.String() == name {
+					// a captured variable of a closure always denotes the address of its cell (write *x), wherever
+					// the contract expression is evaluated: debug references to its loaded value are not used
+					if _, isFV := in.X.(*ssa.FreeVar); isFV {
+						continue
+					}
+					if u, isLoad := in.X.(*ssa.UnOp); isLoad {
+						if _, isFV := u.X.(*ssa.FreeVar); isFV {
+							continue
+						}
+					}
 					if _, done := e.vals[in.X]; !done {
 						if _, isConst := in.X.(*ssa.Const); !isConst {
 							if _, isPar := in.X.(*ssa.Parameter); !isPar {
